@@ -215,14 +215,21 @@ struct Runner {
 #endif
     Job const& job;
     std::string inst;
-    alignas(S) unsigned char store[2][sizeof(S)];
+    // padding around the objects absorbs small overruns of a broken operation, so that the event is still
+    // recorded and judged instead of the harness state being destroyed
+    struct Slot {
+        unsigned char before[512];
+        alignas(S) unsigned char obj[sizeof(S)];
+        unsigned char after[512];
+    };
+    Slot store[2];
     S* ob[2];
     long rec0 = 0, call0 = 0, rec_idx = 0, call_idx = 0;
     std::set<std::string> unsupported_seen;
 
     explicit Runner(Job const& j) : job(j), inst(j.type + "_" + std::to_string(N))
     {
-        for (int i = 0; i < 2; ++i) { ob[i] = new (store[i]) S(); }
+        for (int i = 0; i < 2; ++i) { ob[i] = new (store[i].obj) S(); }
     }
     ~Runner()
     {
@@ -232,7 +239,7 @@ struct Runner {
     {
         for (int i = 0; i < 2; ++i) {
             ob[i]->~S();
-            ob[i] = new (store[i]) S();
+            ob[i] = new (store[i].obj) S();
         }
     }
 
@@ -1101,9 +1108,10 @@ int main(int argc, char** argv)
     shm->events = 0;
     long rec0 = 0, call0 = 0, traps = 0;
     for (;;) {
-        shm->out_len = 0;
-        shm->busy    = 0;
-        pid_t pid    = fork();
+        shm->out_len  = 0;
+        shm->busy     = 0;
+        shm->desc_len = 0;
+        pid_t pid     = fork();
         if (pid < 0) {
             std::perror("fork");
             return 2;
@@ -1124,12 +1132,14 @@ int main(int argc, char** argv)
         if (WIFEXITED(st) && WEXITSTATUS(st) == 0) { break; }
         if (WIFEXITED(st) && (WEXITSTATUS(st) == 2 || WEXITSTATUS(st) == 3)) { return 2; }
         flush_out();
-        if (shm->busy != 1) {
-            std::fprintf(stderr, "child died outside a library call (rec %ld call %ld status %d)\n", shm->rec, shm->call, st);
+        if (shm->busy != 1 && shm->desc_len == 0) {
+            std::fprintf(stderr, "child died before any library call (rec %ld call %ld status %d)\n", shm->rec, shm->call, st);
             return 2;
         }
+        // busy: died inside the call ("trap":1).  Otherwise the process died after the last library call returned and
+        // before the next one began: memory was destroyed by a library call; reported for the last call ("trap":2).
         std::string ev(shm->desc, shm->desc_len);
-        ev += "\"trap\":1}\n";
+        ev += shm->busy == 1 ? "\"trap\":1}\n" : "\"trap\":2}\n";
         if (::write(1, ev.data(), ev.size()) != (ssize_t)ev.size()) { return 2; }
         ++traps;
         ++shm->events;
